@@ -11,7 +11,7 @@ from vlib.par import pmap
 
 PROPERTY = 'C07'
 LEVEL = 'other'
-TARGETS = [('fixedkeydict', 'graphtage.FixedKeyDictNode._child_edits')]
+TARGETS = [('fixedkeydict', 'graphtage.FixedKeyDictNode._child_edits'), ('equality', 'graphtage.KeyValuePairNode.__lt__')]
 TRUSTED = ['iterating a set yields an arbitrary permutation (uninterpreted bijection) - stronger than CPython, which only '
            'varies with the hash seed', 'MappingNode.__contains__/__getitem__/__iter__ against a ghost item list',
            'id()-based tie-breaks (BoundedComparator) influence only the order of tightening (C17)']
@@ -79,19 +79,25 @@ def _first_diff(x, y):
 def _purity_job(job):
     a, b, opt = job
     from graphtage.printer import Printer
-    from graphtage import json as gj
+    import graphtage
     fails = []
     try:
-        ta, tb = gt.build(a, opt), gt.build(b, opt)
+        (ta, fmt), (tb, _) = gt.build_any(a, opt), gt.build_any(b, opt)
         sa, sb = gt.snapshot(ta), gt.snapshot(tb)
+        da, db = gt.deep_state(ta), gt.deep_state(tb)
+        formatter = graphtage.get_filetype(mime_type={'xml': 'application/xml', 'plist': 'application/x-plist', 'csv': 'text/csv',
+                                                      'json': 'application/json'}[fmt]).get_default_formatter()
         outs = []
         for _ in range(2):
             d = ta.diff(tb)
             buf = gt._KeepOpen()
-            gj.JSONFormatter.DEFAULT_INSTANCE.print(Printer(buf, ansi_color=False, quiet=True), d)
+            formatter.print(Printer(buf, ansi_color=False, quiet=True), d)
             outs.append((buf.getvalue(), d.edited_cost()))
         if gt.snapshot(ta) != sa or gt.snapshot(tb) != sb:
             fails.append({'what': f"diff()/printing altered an input tree: {a!r} -> {b!r}", 'class': 'c07-input-mutated'})
+        elif gt.deep_state(ta) != da or gt.deep_state(tb) != db:
+            fails.append({'what': f"diff()/printing replaced, re-classed or re-annotated node objects of an input tree "
+                                  f"(identity-level state differs): {a!r} -> {b!r}", 'class': 'c07-input-mutated:identity'})
         if outs[0] != outs[1]:
             fails.append({'what': f"two in-process diffs of the same trees differ: {a!r} -> {b!r}", 'class': 'c07-repeat-differs'})
     except Exception as ex:
@@ -130,14 +136,22 @@ def bounded(tier, seed, repo_root):
     docs = D.enum_docs(4, atoms=[0, "ab", None], keys=['a', 'b', 'c'])
     pj = [(rnd.choice(docs), rnd.choice(docs), gt.OPTION_COMBOS[rnd.randrange(9)]) for _ in range(3000 if tier == 'quick' else 30000)]
     pj += [(a, b, o) for (a, b) in CORPUS for o in gt.OPTION_COMBOS]
+    # containers that do not override TreeNode.editable_dict (XML elements, the plist wrapper, pydiff objects) and CSV
+    xs, cs = gt.xml_specs(), gt.csv_specs()
+    n_other = 200 if tier == 'quick' else 2000
+    pj += [(('xml', rnd.choice(xs)), ('xml', rnd.choice(xs)), gt.OPTION_COMBOS[rnd.randrange(9)]) for _ in range(n_other)]
+    pj += [(('csv', rnd.choice(cs)), ('csv', rnd.choice(cs)), gt.OPTION_COMBOS[rnd.randrange(9)]) for _ in range(n_other)]
+    pdocs = [d for d in docs if 'None' not in repr(d)]       # plist has no null (C13 finding plist-null)
+    pj += [(('plist', rnd.choice(pdocs)), ('plist', rnd.choice(pdocs)), gt.OPTION_COMBOS[rnd.randrange(9)]) for _ in range(n_other)]
+    pj += [(('pyobj', rnd.choice(docs)), ('pyobj', rnd.choice(docs)), gt.OPTION_COMBOS[rnd.randrange(9)]) for _ in range(n_other)]
     fails += [f for fs in pmap(_purity_job, pj, repo_root) for f in fs]
     return [{
         'name': 'C07.hash-seeds-and-purity', 'bound': f"{len(CORPUS)} corpus pairs with 3-6 unshared keys x {len(FLAGSETS)} flag sets x "
-        f"PYTHONHASHSEED in 0..{len(seeds) - 1} (subprocesses); {len(pj)} document pairs: snapshots before/after diff()+print, two "
+        f"PYTHONHASHSEED in 0..{len(seeds) - 1} (subprocesses); {len(pj)} document pairs (JSON, XML, CSV, plist wrapper, pydiff objects): structural and identity-level snapshots before/after diff()+print, two "
         f"in-process repetitions",
         'evaluations': len(jobs) * len(seeds) + len(pj) * 2, 'distinct_nontrivial': len(jobs) + len({(repr(j[0]), repr(j[1])) for j in pj}),
         'exhaustive': False,
         'rule': 'file pair x flags -> byte-identical stdout and equal exit status across hash seeds; tree pair -> input trees '
-                'structurally unchanged by diff()/print, identical output on repetition',
+                'structurally and identity-wise unchanged by diff()/print (no node object replaced, re-classed or re-annotated), identical output on repetition',
         'failures': fails, 'samples': [{'pair': j[0], 'flags': j[1]} for j in jobs[:3]],
     }]
